@@ -175,7 +175,12 @@ def run_history(ctx, g, rng, length):
                 cfg.update(env.edge(x) for x in es); shadow.update(key(x) for x in es); it = [6, [env.esx(x) for x in es]]; pool += es
             else:
                 arg = [env.edge(x) for x in es]
-                other = set(arg) if rng.random() < 0.5 else g.CFG(arg)
+                # the in-place operators accept any iterable (collections.abc.MutableSet): plain sets, CFGs, lists (with the
+                # duplicates the draw produced) and one-shot iterators, in the order drawn -- not the CFG's own order
+                form = rng.choice(["set", "cfg", "list", "gen", "iter", "set", "cfg"])
+                ctx.count("operand:" + form)
+                other = (set(arg) if form == "set" else g.CFG(arg) if form == "cfg" else list(arg) if form == "list"
+                         else (e for e in arg) if form == "gen" else iter(arg))
                 ks = {key(x) for x in es}
                 if m == "ior":
                     cfg |= other; shadow |= ks; it = [7, [env.esx(x) for x in es]]; pool += es
@@ -226,7 +231,7 @@ def run(ctx):
                 break
     ctx.cov["histories"] = nh
     ctx.cov["traces_validated_against_impl"] = nh
-    ctx.cov["rule"] = ("random histories of %d set operations (add, discard, remove, pop, clear, update, |=, &=, -=, ^= with plain sets and with CFGs) over 6 nodes "
+    ctx.cov["rule"] = ("random histories of %d set operations (add, discard, remove, pop, clear, update, |=, &=, -=, ^= with plain sets, CFGs, lists and one-shot iterators as operands) over 6 nodes "
                        "(4 attached to the CFG's IR, 1 to another IR, 1 detached) x 9 labels incl. None and the all-default label, endpoints/labels drawn from a small pool so that "
                        "re-adding, parallel edges and self-loops are frequent; after every operation len/iteration, and on 40%% of the steps membership, comparisons and all adjacency "
                        "views; one evaluation = one history" % ln)
